@@ -34,3 +34,12 @@ BVF_CORE = ["bvf.new", "bvf.into_inner", "bvf.capacity", "bvf.cfbl", "bvf.mod2n"
 
 GROUPS["bvf_core"] = G("bvf_core", WORD_PRELUDE + ["bvf.rs"],
     BASE_DECLS + stub_int() + BIT_CONV + [("decl", "bvf.consts")] + [("verify", u) for u in BVF_CORE])
+
+def stub(units): return [("stub", u) for u in units]
+def verify(units): return [("verify", u) for u in units]
+
+BVF_PRELUDE = WORD_PRELUDE + ["conv_std.rs", "bvf.rs"]
+BVF_BASE = BASE_DECLS + stub_int() + BIT_CONV_STUB + [("decl", "bvf.consts")]
+
+GROUPS["bvf_shift"] = G("bvf_shift", BVF_PRELUDE,
+    BVF_BASE + stub(BVF_CORE) + verify(["bvf.shl_assign", "bvf.shr_assign"]))
